@@ -19,10 +19,11 @@ def in_scope(t):
         return False
     if any(o['op'] not in ('pause', 'resume', 'stop') for o in (m.get('ops') or [])):
         return False
-    if p['flags'].get('multi_trigger') or p['flags'].get('sub') or p['flags'].get('items') or p['flags'].get('retry') or p['flags'].get('policy'):
+    if p['flags'].get('multi_trigger') or p['flags'].get('sub') or p['flags'].get('items'):
         return False
     for n, d in p['tasks'].items():
-        if d['kind'] != 'action' or d['items'] >= 0 or d['retry']:
+        # retry, wait-before, wait-after and timeout are modelled; pause-before, fail-on, with-items, sub-workflows are not
+        if d['kind'] != 'action' or d['items'] >= 0 or d['pauseBefore'] or d['failOn']:
             return False
     # a task name must not be instantiated twice (e.g. the same target named by on-success and on-complete)
     last = t['steps'][-1]['obs']
@@ -35,7 +36,7 @@ def def_tla(prog):
     return tla(d)
 
 
-INVARIANTS = ['TypeOK', 'NoHangM', 'NoWaitingAtRestM', 'JoinOnceM', 'StartOnceM']
+INVARIANTS = ['TypeOK', 'NoHangM', 'NoWaitingAtRestM', 'JoinOnceM', 'StartOnceM', 'FinalIffLastM', 'StopAtFirstSuccessM']
 PROPERTIES = ['JoinGateM', 'FinishedFrozenM', 'ResultOnceM', 'SuccessStickyM', 'LegalWfM', 'NoNewTasksWhilePausedM', 'NoNewTasksAfterStopM',
               'PauseAckM', 'StopAckM', 'DupNoEffectM']
 
